@@ -121,6 +121,7 @@ type World struct {
 	Height   int64
 	Time     time.Time
 	ValHash  []byte
+	ValAddr  string // operator address of the genesis validator
 	Pending  []TxRecord
 	Blocks   []BlockRecord
 	homeDir  string
@@ -244,6 +245,7 @@ func (w *World) buildGenesis() ([]byte, []byte) {
 		Commission:    stakingtypes.NewCommission(sdkmath.LegacyNewDecWithPrec(5, 2), sdkmath.LegacyNewDecWithPrec(10, 2), sdkmath.LegacyNewDecWithPrec(10, 2)),
 		MinSelfDelegation: sdkmath.OneInt(),
 	}
+	w.ValAddr = sdk.ValAddress(validator.Address).String()
 	sparams := stakingtypes.DefaultParams()
 	sparams.BondDenom = ptypes.Elys
 	deleg := stakingtypes.NewDelegation(delegator.Addr.String(), sdk.ValAddress(validator.Address).String(), sdkmath.LegacyOneDec())
@@ -285,7 +287,9 @@ func (w *World) buildGenesis() ([]byte, []byte) {
 	cGen := ctypes.DefaultGenesis()
 	cGen.Params.EnableVestNow = true
 	cGen.Params.VestingInfos = []ctypes.VestingInfo{{BaseDenom: ptypes.Eden, VestingDenom: ptypes.Elys, NumBlocks: sc.VestBlocks,
-		VestNowFactor: sdkmath.NewInt(sc.VestNowFactor), NumMaxVestings: sc.MaxVestings}}
+		VestNowFactor: sdkmath.NewInt(sc.VestNowFactor), NumMaxVestings: sc.MaxVestings},
+		// liquid vesting of an externally issued token (MsgVestLiquid): deposited, released linearly, never minted
+		{BaseDenom: "uusdt", VestingDenom: "uusdt", NumBlocks: sc.VestBlocks / 2, VestNowFactor: sdkmath.NewInt(sc.VestNowFactor), NumMaxVestings: sc.MaxVestings}}
 	if ce, ok := sdkmath.NewIntFromString(sc.ClaimedEden); ok && ce.IsPositive() {
 		for _, a := range w.Accounts {
 			cGen.Commitments = append(cGen.Commitments, &ctypes.Commitments{Creator: a.Addr.String(),
